@@ -634,6 +634,16 @@ def _r14a(rep):
             return False
         g = v.args[0]
         return any(is_isfile_of(c, g.elt) for gen in g.generators for i in gen.ifs for c, p_ in expand_conds([(i, True)]) if p_ is True)
+
+    def first_regular_filtered(v):
+        """``next(filter(isfile, <candidates>), None)``: filter() lets through exactly the candidates isfile() accepts"""
+        if not (isinstance(v, ast.Call) and isinstance(v.func, ast.Name) and v.func.id == 'next' and len(v.args) == 2 and not v.keywords
+                and isinstance(v.args[1], ast.Constant) and v.args[1].value is None and 'next' not in _locals_of(ff)):
+            return False
+        g = v.args[0]
+        return isinstance(g, ast.Call) and isinstance(g.func, ast.Name) and g.func.id == 'filter' and 'filter' not in _locals_of(ff) and \
+            len(g.args) == 2 and not g.keywords and norm(g.args[0]) in ('isfile', 'os.path.isfile') and \
+            not (isinstance(g.args[0], ast.Name) and g.args[0].id in _locals_of(ff))
     def bound_regular(v):
         """``found = <p>`` under isfile(<p>) ... ``return found``: every binding of the returned local is None or a value
         tested to be a regular file where it is bound"""
@@ -651,7 +661,7 @@ def _r14a(rep):
         return some
     for r in frets:
         cs = _conds(ff, r)
-        ok = ok and (has_cond(cs, lambda t: is_isfile_of(t, r.value), True) or first_regular(r.value) or bound_regular(r.value))
+        ok = ok and (has_cond(cs, lambda t: is_isfile_of(t, r.value), True) or first_regular(r.value) or first_regular_filtered(r.value) or bound_regular(r.value))
     rep.check('R14.a', fkey(ff, 'only regular files'), ok, 'a path is returned only under isfile(<that path>)' if ok else
               'find_file can return a path that is not a regular file (exists()/isdir/no test): directories shadow files of later '
               'search paths and reach the 304 branch', st, frets[0] if frets else ff.node)
@@ -686,7 +696,23 @@ def _r14b(rep):
     nf = [r for r in raises_of(gfr) if res_var is not None and _rtype(gfr, r) == 'NotFound' and implies_absent(_conds(gfr, r), res_var)]
     rep.check('R14.b', fkey(gfr, 'None => NotFound'), bool(nf), 'a missing file raises NotFound' if nf else
               'a None result of find_file is not turned into NotFound', st, gfr.node)
-    # the bfr call only happens with a found path: not reachable when result is None
+    # the errors raised are clastic's own (they take is_breaking); a class of the same name from elsewhere does not
+    seen_names = set()
+    for fi in serving:
+        for r in raises_of(fi):
+            e = _raised(fi, r)
+            f = e.func if isinstance(e, ast.Call) else e
+            if not (isinstance(f, ast.Name) and f.id in HTTP_ERRS) or f.id in seen_names or f.id in _locals_of(fi):
+                continue
+            seen_names.add(f.id)
+            kind, m, obj = repo.resolve(st, f.id)
+            if kind == 'unknown':
+                raise AnalysisError('%s: where %s comes from is not followed' % (fi.qualname, f.id))
+            ok = kind == 'class' and m is not None and not m.external
+            rep.check('R14.b', fkey(st.func('build_file_response'), 'error class %s' % f.id), ok,
+                      '%s is the class of the package (accepts is_breaking)' % f.id if ok else
+                      '%s is not clastic\'s error class (%s): is_breaking=False is not understood, the request fails instead of falling '
+                      'through to the next route' % (f.id, obj if isinstance(obj, str) else kind), st, r)
     rep.floor('R14.b', 7)
 
 
